@@ -114,17 +114,39 @@ func RunAll(p *Program, pkgPath string, match *regexp.Regexp, cfg Config, worker
 	if len(fns) == 0 {
 		return nil, fmt.Errorf("no harness functions matching in %s", pkgPath)
 	}
-	results := make([]*HarnessResult, len(fns))
+	// parallel path exploration: a shared LIFO of (harness, decision prefix)
+	type job struct {
+		h      int
+		prefix []int
+	}
+	var (
+		mu      sync.Mutex
+		cond    = sync.NewCond(&mu)
+		queue   []job
+		busy    int
+		firstErr error
+	)
+	agg := make([]*ResultSet, len(fns))
+	started := make([]time.Time, len(fns))
+	finished := make([]time.Time, len(fns))
+	pending := make([]int, len(fns)) // queued + running jobs per harness
+	for i := range fns {
+		agg[i] = NewResultSet()
+		queue = append(queue, job{i, nil})
+		pending[i] = 1
+	}
+	// reverse so that the first harness is popped first
+	for i, j := 0, len(queue)-1; i < j; i, j = i+1, j-1 {
+		queue[i], queue[j] = queue[j], queue[i]
+	}
+	if workers < 1 {
+		workers = 1
+	}
 	var wg sync.WaitGroup
-	sem := make(chan struct{}, workers)
-	var firstErr error
-	var mu sync.Mutex
-	for i, fn := range fns {
+	for w := 0; w < workers; w++ {
 		wg.Add(1)
-		go func(i int, fn *ssa.Function) {
+		go func(w int) {
 			defer wg.Done()
-			sem <- struct{}{}
-			defer func() { <-sem }()
 			ex, err := NewExec(p, cfg)
 			if err != nil {
 				mu.Lock()
@@ -134,24 +156,62 @@ func RunAll(p *Program, pkgPath string, match *regexp.Regexp, cfg Config, worker
 			}
 			defer ex.Close()
 			if logDir != "" {
-				f, err := os.Create(filepath.Join(logDir, fn.Name()+".smt2"))
-				if err == nil {
+				if f, err := os.Create(filepath.Join(logDir, fmt.Sprintf("worker%d.smt2", w))); err == nil {
 					defer f.Close()
 					ex.SetSolverLog(f)
 				}
 			}
-			t0 := time.Now()
-			ex.RunHarness(fn)
-			r := &HarnessResult{
-				Name: fn.Name(), Pkg: pkgPath, Paths: ex.Paths, PathsEnded: ex.PathsEnded,
-				Checks: ex.Checks, Violations: ex.Violations, Unknowns: ex.Unknowns, Covers: ex.Covers,
-				EngineErrs: ex.EngineErrs, Funcs: keys(ex.FuncsSeen), Stubs: keys(ex.StubsSeen), Notes: keys(ex.Notes),
-				PreWrites: keys(ex.PreWrites), EventTraces: keys(ex.EventTraces),
-				WallS: time.Since(t0).Seconds(),
+			for {
+				mu.Lock()
+				for len(queue) == 0 && busy > 0 {
+					cond.Wait()
+				}
+				if len(queue) == 0 {
+					mu.Unlock()
+					cond.Broadcast()
+					return
+				}
+				j := queue[len(queue)-1]
+				queue = queue[:len(queue)-1]
+				busy++
+				if started[j.h].IsZero() {
+					started[j.h] = time.Now()
+				}
+				skip := agg[j.h].Paths >= cfg.MaxPaths && cfg.MaxPaths > 0 || len(agg[j.h].EngineErrs) > 20
+				mu.Unlock()
+				var alts [][]int
+				local := NewResultSet()
+				if !skip {
+					ex.ResultSet = local
+					ex.RunPath(fns[j.h], j.prefix)
+					alts = ex.TakeWork()
+				}
+				mu.Lock()
+				agg[j.h].Merge(local)
+				for _, a := range alts {
+					queue = append(queue, job{j.h, a})
+				}
+				pending[j.h] += len(alts) - 1
+				if pending[j.h] == 0 {
+					finished[j.h] = time.Now()
+				}
+				busy--
+				mu.Unlock()
+				cond.Broadcast()
 			}
-			results[i] = r
-		}(i, fn)
+		}(w)
 	}
 	wg.Wait()
+	results := make([]*HarnessResult, len(fns))
+	for i, fn := range fns {
+		r := agg[i]
+		results[i] = &HarnessResult{
+			Name: fn.Name(), Pkg: pkgPath, Paths: r.Paths, PathsEnded: r.PathsEnded,
+			Checks: r.Checks, Violations: r.Violations, Unknowns: r.Unknowns, Covers: r.Covers,
+			EngineErrs: r.EngineErrs, Funcs: keys(r.FuncsSeen), Stubs: keys(r.StubsSeen), Notes: keys(r.Notes),
+			PreWrites: keys(r.PreWrites), EventTraces: keys(r.EventTraces),
+			WallS: finished[i].Sub(started[i]).Seconds(),
+		}
+	}
 	return results, firstErr
 }
